@@ -220,8 +220,101 @@ func (ex *Exec) symSliceSlice(st *State, sv *SymSliceV, e *ast.SliceExpr) Value 
 	return r
 }
 func (ex *Exec) makeSymSlice(st *State, t *types.Slice, n *Term, p token.Pos) Value {
-	unsupported("make with symbolic length at %s", ex.pos(p))
-	return nil
+	// make([]T, n) with n not a constant: n zero elements (make panics for a negative n)
+	ex.assert(st, "safety.make", ex.ts.BVCmp(OpBVSle, ex.ts.BV(0, 64), n), p, "make with a non-negative length")
+	sv := &SymSliceV{Len: n, Elem: t.Elem()}
+	for _, lf := range ex.elemLeaves(t.Elem()) {
+		sv.Arrs = append(sv.Arrs, ex.ts.ConstArray(ArraySort(refSort, lf.sort), ex.zeroTerm(lf.sort)))
+	}
+	return sv
+}
+
+// symElemStore: v[idx] = val for a local slice variable of unknown length. A slice of unknown
+// length is a value here (length + contents), so the store is only modelled when the variable is
+// not aliased: it must be used in its function only in v[i], len(v), range v, v = append(v, ..),
+// v := make(..) and return v.
+func (ex *Exec) symElemStore(st *State, e *ast.IndexExpr, val Value) bool {
+	id, ok := ast.Unparen(e.X).(*ast.Ident)
+	if !ok {
+		return false
+	}
+	obj, ok := ex.objOf(id).(*types.Var)
+	if !ok {
+		return false
+	}
+	l := ex.cur().env.Lookup(obj)
+	if l == nil {
+		return false
+	}
+	sv, ok := ex.load(st, l).(*SymSliceV)
+	if !ok {
+		return false
+	}
+	if f := ex.cur().fi; f == nil || !unaliasedSliceVar(f.Decl.Body, obj, f.Pkg.TypesInfo) {
+		unsupported("store into an element of slice variable %s of unknown length that may be aliased at %s", id.Name, ex.pos(e.Pos()))
+	}
+	idx := ex.indexTerm(e.Index, st)
+	ex.assert(st, "safety.index", ex.ts.BVCmp(OpBVUlt, idx, sv.Len), e.Pos(), "index below the slice length")
+	r := &SymSliceV{Len: sv.Len, Arrs: append([]*Term(nil), sv.Arrs...), Elem: sv.Elem}
+	var ls []*Term
+	ex.flattenValue(val, st, &ls)
+	for k := range r.Arrs {
+		r.Arrs[k] = ex.ts.Store(r.Arrs[k], idx, ls[k])
+	}
+	st.store[l] = r
+	ex.assumptions["element stores into a slice of unknown length are modelled on the (syntactically unaliased) slice variable"] = true
+	return true
+}
+
+func unaliasedSliceVar(body *ast.BlockStmt, obj *types.Var, info *types.Info) bool {
+	ok := true
+	allowed := map[*ast.Ident]bool{}
+	ast.Inspect(body, func(n ast.Node) bool {
+		switch x := n.(type) {
+		case *ast.IndexExpr:
+			if id, is := ast.Unparen(x.X).(*ast.Ident); is {
+				allowed[id] = true
+			}
+		case *ast.CallExpr:
+			if fn, is := ast.Unparen(x.Fun).(*ast.Ident); is && (fn.Name == "len" || fn.Name == "cap") && len(x.Args) == 1 {
+				if id, is := ast.Unparen(x.Args[0]).(*ast.Ident); is {
+					allowed[id] = true
+				}
+			}
+		case *ast.RangeStmt:
+			if id, is := ast.Unparen(x.X).(*ast.Ident); is {
+				allowed[id] = true
+			}
+		case *ast.ReturnStmt:
+			for _, r := range x.Results {
+				if id, is := ast.Unparen(r).(*ast.Ident); is {
+					allowed[id] = true
+				}
+			}
+		case *ast.AssignStmt:
+			// v := make(...), v = append(v, ...)
+			if len(x.Lhs) == 1 && len(x.Rhs) == 1 {
+				if id, is := x.Lhs[0].(*ast.Ident); is && info.ObjectOf(id) == obj {
+					allowed[id] = true
+					if call, is := x.Rhs[0].(*ast.CallExpr); is {
+						if fn, is := call.Fun.(*ast.Ident); is && fn.Name == "append" && len(call.Args) > 0 {
+							if a0, is := call.Args[0].(*ast.Ident); is {
+								allowed[a0] = true
+							}
+						}
+					}
+				}
+			}
+		}
+		return true
+	})
+	ast.Inspect(body, func(n ast.Node) bool {
+		if id, is := n.(*ast.Ident); is && info.ObjectOf(id) == obj && !allowed[id] {
+			ok = false
+		}
+		return ok
+	})
+	return ok
 }
 func (ex *Exec) symAppend(st *State, b *SymSliceV, add []Value, p token.Pos) Value {
 	r := &SymSliceV{Len: b.Len, Arrs: append([]*Term(nil), b.Arrs...), Elem: b.Elem}
@@ -575,8 +668,10 @@ func (ex *Exec) execLoopInv(s ast.Stmt, cond ast.Expr, body *ast.BlockStmt, post
 	}
 	exit := head.fork(ex.ts.And(head.pc, ex.ts.Not(c)))
 	if len(useExprs) > 0 {
-		// lemma instances at the (arbitrary) loop state, available to the body
-		bs := head.fork(ex.ts.And(head.pc, c))
+		// lemma instances at the (arbitrary) loop state, available to the body and after the
+		// loop: evaluated under the head's path condition only, so that facts produced while
+		// evaluating them (results of contract calls inside the statement) survive the exit
+		bs := head.fork(head.pc)
 		for _, e := range useExprs {
 			ex.suppress++
 			g := ex.evalBool(e, bs)
